@@ -1,7 +1,7 @@
 #!/bin/bash
 # evalmutant.sh <ID> <k> [tier]: validate a sub-agent mutant (/tmp/wt/out-<ID>/patch<k>.diff + demo<k>_test.go)
 # in a scratch worktree, then run the property's check against it in /repo and undo it.
-ID=$1; K=$2; TIER=${3:-quick}
+ID=$1; K=$2; TIER=${3:-quick}; PROP=${ID%b}
 export GOFLAGS=-mod=mod GOPROXY=off GOSUMDB=off GOTOOLCHAIN=local
 OUT=/tmp/wt/out-$ID; P=$OUT/patch$K.diff; D=$OUT/demo${K}_test.go
 [ -f "$P" ] || { echo "no patch $P"; exit 2; }
@@ -17,20 +17,21 @@ S1=$(go test -vet=off -count=1 ./... 2>&1 | grep -E "^(FAIL|--- FAIL)" | grep -v
 S2=$(go test -vet=off -count=1 ./... 2>&1 | grep -E "^(--- FAIL)" | grep -v TestClientResetStream | head -3)
 SUITE=pass; [ -n "$S2" ] && [ -n "$S1" ] && SUITE="FAILS($S2)"
 TN=$(python3 -c "import json;print(json.load(open('$OUT/meta$K.json')).get('test_name',''))" 2>/dev/null)
-RACE=""; grep -qi "race" $OUT/meta$K.json 2>/dev/null && [ "$ID" = C15 ] && RACE="-race"
+RACE=""; grep -qi "race" $OUT/meta$K.json 2>/dev/null && [ "$PROP" = C15 ] && RACE="-race"
 cp $D ./zz_demo_test.go
-DW=0; for i in 1 2 3; do timeout 120 go test $RACE -vet=off -count=1 -run "^${TN}\$" . >/tmp/wt/demo.out 2>&1 || DW=$((DW+1)); done
+DW=0; for i in 1 2 3; do timeout 120 go test $RACE -vet=off -count=1 -run "^${TN}" . >/tmp/wt/demo.out 2>&1 || DW=$((DW+1)); done
 git apply -R --whitespace=nowarn $P
-DN=0; for i in 1 2 3; do timeout 120 go test $RACE -vet=off -count=1 -run "^${TN}\$" . >/tmp/wt/demo2.out 2>&1 || DN=$((DN+1)); done
+DN=0; for i in 1 2 3; do timeout 120 go test $RACE -vet=off -count=1 -run "^${TN}" . >/tmp/wt/demo2.out 2>&1 || DN=$((DN+1)); done
 cd /; git -C /repo worktree remove --force $W
 echo "$R suite_with_mutant=$SUITE demo_fails_with=$DW/3 demo_fails_without=$DN/3 test=$TN"
 # now the check
 cd /verif
-cp evidence/$ID.json /tmp/wt/evid-$ID.json 2>/dev/null
+cp evidence/$PROP.json /tmp/wt/evid-$ID.json 2>/dev/null
 git -C /repo apply --whitespace=nowarn $P || { echo "$R cannot apply to /repo"; exit 2; }
-timeout 900 ./vcheck.sh $ID $TIER > /tmp/wt/check-$ID-$K.out 2>&1; RC=$?
+timeout 900 ./vcheck.sh $PROP $TIER > /tmp/wt/check-$ID-$K.out 2>&1; RC=$?
 git -C /repo checkout -- .
-cp /tmp/wt/evid-$ID.json evidence/$ID.json 2>/dev/null
+./vcheck.sh build >/dev/null 2>&1   # never leave a binary built from a mutated tree behind
+cp /tmp/wt/evid-$ID.json evidence/$PROP.json 2>/dev/null
 echo "$R check($TIER) exit=$RC $(grep -c '^VIOLATION' /tmp/wt/check-$ID-$K.out) violation lines; first: $(grep -A1 '^VIOLATION' /tmp/wt/check-$ID-$K.out | grep 'key=' | head -1 | cut -c1-220)"
 [ $RC -eq 3 ] && grep -E "BROKEN|BUILD FAILED" /tmp/wt/check-$ID-$K.out | head -3 | cut -c1-250
 exit 0
